@@ -155,7 +155,7 @@ def zernike(zernike_indexes, labels, indexes):
     #
     indexes = np.array(indexes, dtype=np.int32)
     nindexes = len(indexes)
-    reverse_indexes = np.empty((np.max(indexes) + 1,), int)
+    reverse_indexes = np.empty((max(np.max(indexes), np.max(labels)) + 1,), int)
     reverse_indexes.fill(-1)
     reverse_indexes[indexes] = np.arange(indexes.shape[0], dtype=int)
     mask = reverse_indexes[labels] != -1
